@@ -13,7 +13,10 @@ pub fn date_opt(z: i64) -> Option<NaiveDate> {
     NaiveDate::from_ymd_opt(y as i32, m, d)
 }
 pub fn time(secs: u32, frac: u32) -> NaiveTime {
-    NaiveTime::from_num_seconds_from_midnight_opt(secs, frac).unwrap_or_else(|| panic!("harness: time({secs},{frac})"))
+    // a leap representation on a second other than :59 is only reachable through with_nanosecond
+    NaiveTime::from_num_seconds_from_midnight_opt(secs, frac % 1_000_000_000)
+        .and_then(|t| if frac >= 1_000_000_000 { t.with_nanosecond(frac) } else { Some(t) })
+        .unwrap_or_else(|| panic!("harness: time({secs},{frac})"))
 }
 pub fn ndt(n: Ndt) -> NaiveDateTime { date(n.day).and_time(time(n.secs, n.frac)) }
 pub fn ndt_of_inst(t: i128) -> NaiveDateTime { ndt(inst::split(t)) }
